@@ -382,21 +382,26 @@ def xquotes(node, also_plain=True):
     fn = CURRENT_AST.enclosing_fn(node) if CURRENT_AST is not None else None
     scope = fn.body if fn is not None and fn.body is not None else node
     defs = {}
-    multi = set()
+    counts = {}
+    from astlib import pat_bindings
     for n in walk(scope):
-        if n["k"] == "Let" and n["pat"]["k"] == "PIdent" and isinstance(n.get("init"), dict) and n["init"].get("k") == "Macro" \
-                and n["init"].get("path") in ("quote", "quote_spanned", "quote::quote") and "tokens" in n["init"]:
-            nm = n["pat"]["name"]
-            if nm in defs:
-                multi.add(nm)
-            defs[nm] = n["init"]["tokens"]
-        elif n["k"] == "Let":
-            from astlib import pat_bindings
+        if n["k"] == "Let":
             for nm in pat_bindings(n["pat"]):
-                if nm in defs:
-                    multi.add(nm)
-    for nm in multi:
-        defs.pop(nm, None)
+                counts[nm] = counts.get(nm, 0) + 1
+            if n["pat"]["k"] == "PIdent" and isinstance(n.get("init"), dict) and n["init"].get("k") == "Macro" \
+                    and n["init"].get("path") in ("quote", "quote_spanned", "quote::quote") and "tokens" in n["init"]:
+                defs[n["pat"]["name"]] = n["init"]["tokens"]
+        elif n["k"] in ("Closure",):
+            for p in n["inputs"]:
+                for nm in pat_bindings(p):
+                    counts[nm] = counts.get(nm, 0) + 1
+        elif n["k"] == "Match":
+            for a in n["arms"]:
+                for nm in pat_bindings(a["pat"]):
+                    counts[nm] = counts.get(nm, 0) + 1
+    for nm in list(defs):
+        if counts.get(nm, 0) != 1:
+            defs.pop(nm)
 
     def expand(tokens, depth):
         out = []
